@@ -36,13 +36,47 @@ def exc_class(pu, kind):
 
 
 def exc_names(kind):
-    return {'Empty': ('Empty', 'ShimEmpty')}.get(kind, (kind,))
+    return {'Empty': ('Empty', 'ShimEmpty'), 'Full': ('Full', 'ShimFull')}.get(kind, (kind,))
+
+
+# legal example values that are falsy / None: the model sees the number, the implementation the object
+PAY = {2: None, 3: 0, 4: '', 5: False, 6: ()}
+PAY2 = {21: None, 31: 0, 41: '', 51: False}
+
+
+def pay(v, table=PAY):
+    return table.get(v, v)
+
+
+def unpay(x, table=PAY):
+    for k, o in table.items():
+        if type(x) is type(o) and x == o:
+            return k
+    return x
+
+
+SRC_EXC = ['SrcFail', 'SrcFail', 'Empty', 'Full', 'KeyError', 'RuntimeError', 'StopAsyncIteration']
+SRC_BASE = ['SrcFailBase', 'SrcFailBase', 'GeneratorExit']
+
+
+def src_exc_class(pu, kind):
+    if kind == 'Empty':
+        return pu.queue.Empty
+    if kind == 'Full':
+        return pu.queue.Full
+    return {'SrcFail': SrcFail, 'SrcFailBase': SrcFailBase, 'KeyError': KeyError, 'RuntimeError': RuntimeError,
+            'StopAsyncIteration': StopAsyncIteration, 'GeneratorExit': GeneratorExit}[kind]
+
+
+def fail_kind(e):
+    """spec entry ('fail', is_exception, tag[, class name])"""
+    return e[3] if len(e) > 3 else ('SrcFail' if e[1] else 'SrcFailBase')
 
 
 class Src:
     """source iterable: ('ok', v) | ('fail', is_exception, tag); advancing it is a yield point"""
-    def __init__(self, s, spec):
-        self.s, self.spec, self.i, self.dead = s, spec, 0, False
+    def __init__(self, s, spec, pu=None):
+        self.s, self.spec, self.i, self.dead, self.pu = s, spec, 0, False, pu
         self.pulls_after_end = 0
         self.ended = False         # set by the driver when control is back with the consumer for good
 
@@ -60,10 +94,10 @@ class Src:
         self.i += 1
         if e[0] == 'ok':
             self.s.emit('pull', ('ok', e[1]))
-            return e[1]
+            return pay(e[1])
         self.dead = True
         self.s.emit('pull', ('fail', e[2]))
-        raise (SrcFail if e[1] else SrcFailBase)(Tag(e[2]))
+        raise src_exc_class(self.pu, fail_kind(e))(Tag(e[2]))
 
 
 def is_sentinel(x):
@@ -75,7 +109,7 @@ def run_st(pu, spec, B, script, schedule, rng, wall=20.0, fallback='random'):
     """script: ('exhaust',) | ('close', k) | ('drop', k).  Returns a dict describing the run."""
     s = S.Sched(schedule, rng, wall, fallback)
     undo = S.install(pu, s)
-    src = Src(s, spec)
+    src = Src(s, spec, pu)
     delivered, outcome = [], None
     K = None if script[0] == 'exhaust' else script[1]
     old_trace = sys.gettrace()
@@ -100,6 +134,7 @@ def run_st(pu, spec, B, script, schedule, rng, wall=20.0, fallback='random'):
                 except StopIteration:
                     outcome = ('end',)
                     break
+                x = unpay(x)
                 delivered.append(x)
                 s.emit('deliver', x)
                 s.yield_point('C3')
@@ -197,7 +232,7 @@ def st_direct(run):
     if run['K'] is None:
         if run['delivered'] != oks_before:
             fails.append(('C06' if first_fail else 'C04', f'exhausting consumer got {run["delivered"]}, expected {oks_before}'))
-        if first_fail and out != ('raised', 'SrcFail' if first_fail[1] else 'SrcFailBase', first_fail[2]):
+        if first_fail and not (out and out[0] == 'raised' and out[1] in exc_names(fail_kind(first_fail)) and out[2] == first_fail[2]):
             fails.append(('C06', f'source failed with tag {first_fail[2]} but the consumer saw {out}'))
         if not first_fail and out != ('end',):
             fails.append(('C04', f'outcome {out} for a source without failure'))
@@ -234,18 +269,19 @@ class Fn:
         self.calls_after_end = 0
 
     def __call__(self, v):
+        v = unpay(v)
         self.calls.append(v)
         if self.ended:
             self.calls_after_end += 1
         if v in self.bad:
             raise exc_class(self.pu, self.exc_kind)(Tag(v))
-        return 10 * v + 1
+        return pay(10 * v + 1, PAY2)
 
 
 def run_pool(pu, spec, B, W, bad, script, schedule, rng, wall=20.0, fallback='random', exc_kind='FnFail'):
     s = S.Sched(schedule, rng, wall, fallback)
     undo = S.install(pu, s)
-    src = Src(s, spec)
+    src = Src(s, spec, pu)
     fn = Fn(s, bad, pu, exc_kind)
     delivered, outcome = [], None
     K = None if script[0] == 'exhaust' else script[1]
@@ -269,6 +305,7 @@ def run_pool(pu, spec, B, W, bad, script, schedule, rng, wall=20.0, fallback='ra
                 except StopIteration:
                     outcome = ('end',)
                     break
+                x = unpay(x, PAY2)
                 delivered.append(x)
                 s.emit('deliver', x)
                 s.yield_point('PY')
@@ -384,7 +421,7 @@ def pool_direct(run):
             break
         seq.append(10 * a + 1)
     if seq_err is None:
-        seq_err = ('end',) if src_fail is None else ('raised', 'SrcFail' if src_fail[1] else 'SrcFailBase', src_fail[2])
+        seq_err = ('end',) if src_fail is None else ('raised', fail_kind(src_fail), src_fail[2])
     if run['delivered'] != [10 * a + 1 for a in args][:len(run['delivered'])]:
         fails.append(('C04', f'delivered {run["delivered"]} is not an in-order prefix of the mapped source'))
     if run['K'] is None:
@@ -432,12 +469,13 @@ Require Import LD.ETrace.
 """
 
 
-def gen_spec(r, nmax, fail_rate=0.35):
+def gen_spec(r, nmax, fail_rate=0.35, base_kinds=SRC_BASE):
     n = r.choice([0, 1, 2, 2, 3, 3, 4, nmax])
     spec = [('ok', i + 1) for i in range(n)]
     if spec and r.random() < fail_rate or (not spec and r.random() < 0.2):
         pos = r.randint(0, len(spec))
-        spec.insert(pos, ('fail', r.random() < 0.7, 90 + pos))
+        is_exc = r.random() < 0.7
+        spec.insert(pos, ('fail', is_exc, 90 + pos, r.choice(SRC_EXC if is_exc else base_kinds)))
     return spec
 
 
@@ -569,7 +607,7 @@ def run_e(prop, tier, n_st=350, n_pool=350, dfs_budget=500, long_runs=30):
         script = r.choice([('exhaust',), ('exhaust',), ('close', r.randint(0, n_ok + 1)), ('drop', r.randint(0, n_ok + 1))])
         runs.append(run_st(pu, spec, B, script, gen_schedule(r, ['C', 'W'], 250), r))
     for _ in range(n_pool):
-        spec = gen_spec(r, 6, 0.25)
+        spec = gen_spec(r, 6, 0.25, base_kinds=['SrcFailBase'])      # GeneratorExit from a foreground source is the pool's own close signal
         W = r.choice([1, 2, 3]); B = W + r.choice([0, 0, 1, 2]); B = min(B, 4) if B >= W else W
         oks = [e[1] for e in spec if e[0] == 'ok']
         bad = [v for v in oks if r.random() < 0.12]
@@ -764,20 +802,20 @@ def backend_checks(ld, r, tier, prop):
     import warnings
     fails, runs = [], 0
     quick = tier == 'quick'
-    backends = ['t', 'concurrent_mp'] if quick else ['t', 'mp', 'dill_mp', 'multiprocessing', 'concurrent_mp']
+    backends = ['t', 'concurrent_mp', 'dill_mp', 'mp'] if quick else ['t', 'mp', 'dill_mp', 'multiprocessing', 'concurrent_mp']
     classes = ['FnFail', 'Empty', 'KeyError', 'FilterException', 'FnFailBase', 'CancelledError', 'IndexError', 'StopAsyncIteration']
     with warnings.catch_warnings():
         warnings.simplefilter('ignore')
         for be in backends:
             thread = be == 't'
-            cfgs = [(2, 2), (2, 3)] if quick else [(1, 1), (2, 2), (2, 4), (3, 3), (3, 4)]
-            lengths = ([0, 1, 5] if quick else [0, 1, 2, 7, 23]) if prop == 'C04' else ([5] if quick else [4, 9])
+            cfgs = ([(2, 2), (2, 3)] if thread else [(2, 2)]) if quick else [(1, 1), (2, 2), (2, 4), (3, 3), (3, 4)]
+            lengths = ((([0, 1, 5] if thread else [5]) if quick else [0, 1, 2, 7, 23])) if prop == 'C04' else ([5] if quick else [4, 9])
             for (w, b) in cfgs:
                 for n in lengths:
                     tables = []
                     if prop == 'C04':
                         tables.append(({}, None))
-                        for _ in range(2 if quick else 5):
+                        for _ in range((2 if thread else 1) if quick else 5):
                             t = {x: ('val', r.choice([None, None, 0, '', (), False])) for x in range(n) if r.random() < 0.4}
                             tables.append((t, None))
                             tables.append((t, True))
